@@ -88,6 +88,8 @@ Effect(s, o, x, c, g, operOf) ==
            LET s1 == PayIfDel(s, x, v) IN
            [s1 EXCEPT !.ubd = Sub2(@, x, v, a), !.deleg = Add2(@, x, v, a),
                       !.mods = Add(Sub(@, "notbonded", a), "bonded", a)]
+      \* ICS-20 transfer of the native coin out of channel-0: the coins are escrowed
+      [] o.m = "ibcTransfer" -> [s EXCEPT !.bank = Sub(@, x, a), !.mods = Add(@, "escrow", a)]
       [] o.m = "withdrawRewards" -> PayRewards(s, x, v)
       [] o.m = "claimRewards" ->
            LET F[S \in SUBSET Vals(s)] == IF S = {} THEN s ELSE LET w == CHOOSE y \in S : TRUE IN PayIfDel(F[S \ {w}], x, w)
@@ -117,11 +119,13 @@ Effect(s, o, x, c, g, operOf) ==
       [] OTHER -> s
 
 SpendMethods == {"delegate", "undelegate", "redelegate", "cancelUnbonding"}
-OwnerMethods == SpendMethods \cup {"withdrawRewards", "claimRewards", "setWithdrawAddress", "withdrawCommission"}
+OwnerMethods == SpendMethods \cup {"withdrawRewards", "claimRewards", "setWithdrawAddress", "withdrawCommission", "ibcTransfer"}
 
 \* C04: what must be true of a *successful* state-changing call; returns the broken clauses
 AuthProblems(s, o, x, c, g) ==
     (IF o.m \in OwnerMethods /\ x \notin {g, c} THEN {"acted-for-third-party"} ELSE {})
+    \* no ICS-20 grant is ever set up in these scenarios: a transfer by a caller that is not the signer has none
+    \cup (IF o.m = "ibcTransfer" /\ c # g THEN {"spend-without-live-grant"} ELSE {})
     \cup
     (IF o.m \in SpendMethods /\ c # g /\ x \in Accts(s)
      THEN \* the grant from the signer to the immediate caller for this message type
@@ -289,6 +293,7 @@ CodeAccepts(s, o, x, c, g, operOf) ==
            /\ (o.m \in {"undelegate", "redelegate"} => BigLE(o.amt, s.deleg[x][ValName(o.val)]))
            /\ (o.m = "cancelUnbonding" => BigLE(o.amt, s.ubd[x][ValName(o.val)]))
            /\ Pos(o.amt)
+      [] o.m = "ibcTransfer" -> c = g /\ x = g /\ Pos(o.amt) /\ BigLE(o.amt, s.bank[x])
       [] o.m \in {"withdrawRewards"} -> (x = c \/ x = g) /\ HasDel(s, x, ValName(o.val))
       [] o.m \in {"claimRewards", "setWithdrawAddress"} -> (x = c \/ x = g)
       [] o.m = "withdrawCommission" -> (x = c \/ x = g) /\ x \in DOMAIN operOf /\ Pos(s.commission[operOf[x]])
@@ -322,7 +327,7 @@ LateAuthzFailure(s, o, c, g) ==
        \A j \in 1..Len(vs) : vs[j] # vdst
 
 Mirror(ms, o, x, c, pre) ==
-    CASE o.m = "delegate" /\ x = c -> Touch(ms, c, BigNeg(o.amt))
+    CASE o.m \in {"delegate", "ibcTransfer"} /\ x = c -> Touch(ms, c, BigNeg(o.amt))
       [] o.m = "withdrawRewards" /\ x = c -> Touch(ms, c, pre.rewards[x][ValName(o.val)])
       [] OTHER -> ms
 
@@ -352,7 +357,9 @@ MOp(ms, self, o, g, operOf, root) ==
               THEN LET ra == MApprove(m1.s, o, self, g) IN
                    IF ra.ok THEN [ms |-> [m1 EXCEPT !.s = ra.s], ok |-> TRUE]
                    ELSE [ms |-> IF "no_cosmos_revert" \in Defects THEN [m1 EXCEPT !.s = ra.s] ELSE m0, ok |-> FALSE]
-              ELSE IF ~CodeAccepts(m1.s, o, x, self, g, operOf) THEN [ms |-> m0, ok |-> FALSE]
+              \* the StateDB is flushed before the precompile looks at its arguments: a refused call has
+              \* already written the dirty balances and storage of the transaction so far
+              ELSE IF ~CodeAccepts(m1.s, o, x, self, g, operOf) THEN [ms |-> IF "no_cosmos_revert" \in Defects THEN m1 ELSE m0, ok |-> FALSE]
               \* precompiles/staking: the grant is re-validated (validator allow-list) by
               \* UpdateStakingAuthorization only AFTER the message was executed; when that fails the call
               \* reports failure although the Cosmos-side effect is already written
